@@ -147,7 +147,7 @@ func quick(g *gwbox.Gateway, host, path string) (int, int) {
 }
 
 func TestPropRemovalCutsInflight(t *testing.T) {
-	sub := stats.NewSub("removal-timing", "rapid: what is removed (cluster c1 / the first endpoint of c1), when relative to a target request on that endpoint (before it is sent / while the stub delays its headers / after j = 1..5 streamed chunks), 0-3 bystanders (streams or held requests on the other endpoint of c1 and on cluster c2); oracle: the target ends at the client and its context dies at the stub within 2 s of the removal; the removed endpoint (optionally disabled and re-enabled before; optionally disabled - drained - while the target is in flight and still disabled when removed) receives no health probe later than 300 ms after the removal (probe period shortened to 20 ms by the verif hook); afterwards requests to the deleted cluster - by its name and by its alias server name - get 503 and nothing is forwarded, the removed endpoint is never picked again; bystander streams keep delivering chunks for 300 ms and finish normally when released, held bystander requests return 200; non-trivial = the removal happens while the target is connecting or streaming and there is >= 1 bystander; distinct by FNV-64 of the plan")
+	sub := stats.NewSub("removal-timing", "rapid: what is removed (cluster c1 / the first endpoint of c1), when relative to a target request on that endpoint (before it is sent / while the stub delays its headers / after j = 1..5 streamed chunks), 0-3 bystanders (streams or held requests on the other endpoint of c1 and on cluster c2); oracle: the target ends at the client and its context dies at the stub within 2 s of the removal, and a target cut before the upstream answered gets a 5xx from the gateway (never a 2xx); the removed endpoint (optionally disabled and re-enabled before; optionally disabled - drained - while the target is in flight and still disabled when removed) receives no health probe later than 300 ms after the removal (probe period shortened to 20 ms by the verif hook); afterwards requests to the deleted cluster - by its name and by its alias server name - get 503 and nothing is forwarded, the removed endpoint is never picked again; bystander streams keep delivering chunks for 300 ms and finish normally when released, held bystander requests return 200; non-trivial = the removal happens while the target is connecting or streaming and there is >= 1 bystander; distinct by FNV-64 of the plan")
 	stats.Check(t, stats.N(20, 150), func(t *rapid.T) {
 		what := rapid.SampledFrom([]string{"cluster", "endpoint"}).Draw(t, "remove")
 		when := rapid.SampledFrom([]string{"before", "connecting", "streaming", "streaming"}).Draw(t, "when")
@@ -302,6 +302,10 @@ func TestPropRemovalCutsInflight(t *testing.T) {
 			seen := pool.Find(target.id)
 			if !ok {
 				t.Fatalf("2 s after the removal the request being proxied to the removed %s is still hanging (client ended: %v, status %d; stub context dead: %v)\nplan: %s", what, !ended.IsZero(), st, len(seen) == 1 && !seen[0].CtxDoneAt.IsZero(), plan)
+			}
+			if when == "connecting" && st > 0 && st < 500 {
+				// the upstream had not answered yet: what the client gets is the gateway's own answer, and that says why
+				t.Fatalf("the request cut before the upstream answered was answered %d to the client, expected a gateway error (5xx Status)\nplan: %s", st, plan)
 			}
 			sub.Note("target cut %.1f ms after the removal (%s, %s)", float64(ended.Sub(removedAt))/1e6, what, when)
 		}
